@@ -73,7 +73,7 @@ pub fn program(s: &Shape17) -> Program {
         }
         ops.push(Op::Closure(body));
     }
-    Program { curve: s.curve, tlabel: 1, pre: vec![], ops, owned: false, cap_p: Cap::Big, cap_v: Cap::Big, party_cap: s.parties.max(1), seed: 17, pc: 0, gens: 0 }
+    Program { curve: s.curve, tlabel: 1, pre: vec![], ops, owned: false, cap_p: Cap::Big, cap_v: Cap::Big, party_cap: s.parties.max(1), seed: 17, pc: 0, gens: ((s.n1 + 2 * s.n2) % 4) as u8 }
 }
 
 fn shape_case<G: CurveTag>(s: &Shape17, col: &mut Collector) -> Result<(), Failure> {
